@@ -766,7 +766,7 @@ func readSeries(db *tsdbx.DB, float bool) (string, int, error) {
 	return gallina.List(items), len(items), ss.Err()
 }
 
-func runHead(id int, r *gen.Rand, float bool, ops []opT, out string, meta *gallina.Meta, d desc) (string, bool) {
+func runHead(id int, r *gen.Rand, float bool, ops []opT, out string, meta *gallina.Meta, d desc) (res string, ok bool) {
 	dir, err := os.MkdirTemp(out, "c11db")
 	if err != nil {
 		panic(err)
@@ -776,9 +776,30 @@ func runHead(id int, r *gen.Rand, float bool, ops []opT, out string, meta *galli
 	if err != nil {
 		panic(err)
 	}
-	defer func() { db.DB.Close() }()
-	lbls := labels.FromStrings("__name__", "h")
+	panicked := false
+	// after a panic inside the head its locks may still be held: do not Close (it would deadlock)
+	defer func() {
+		if !panicked {
+			db.DB.Close()
+		}
+	}()
 	var opsS, before []string
+	defer func() {
+		if p := recover(); p != nil {
+			panicked = true
+			d.Shape = "head-panic"
+			meta.GoViol = append(meta.GoViol, gallina.GoViolation{ID: fmt.Sprint(id), Shape: "head-panic", What: fmt.Sprintf("panic while appending / reading / compacting through the head: %v", p)})
+			meta.Hit("head-panic")
+			meta.Case(id, d)
+			none := make([]string, len(opsS))
+			for i := range none {
+				none[i] = "None"
+			}
+			res = fmt.Sprintf("mkCase %d 1 %s %s [] [] [] [] %s []", id, kindS(float), gallina.List(opsS), gallina.List(none))
+			ok = true
+		}
+	}()
+	lbls := labels.FromStrings("__name__", "h")
 	for _, o := range ops {
 		b := o.h.String()
 		before = append(before, b)
